@@ -28,6 +28,7 @@ def gen_stream(rng: random.Random, max_traces: int, max_len: int, p_kill: float 
     """One run: list of protocol event tuples, possibly cut (kill)."""
     evs: list[list] = []
     ntr = 0
+    base = rng.choice([0, 0, 5, 9, 30])       # trace numbers start anywhere (a long run has many traces): base+1, base+2, …
     callno = 0
     promptno = 0
     # per trace: phase 0 idle, 1 in call, 2 in cmdloop, 3 prompt open; ended
@@ -54,7 +55,7 @@ def gen_stream(rng: random.Random, max_traces: int, max_len: int, p_kill: float 
         kind, t = rng.choice(choices)
         if kind == 'st':
             ntr += 1
-            t = ntr
+            t = base + ntr
             thread = rng.randint(1, 3)
             task = rng.choice([None, None, 1, 2])
             tr[t] = {'phase': 0, 'ended': False, 'call': None, 'looped': False, 'prompted': False, 'p': None}
@@ -589,7 +590,7 @@ def run(chk: common.Check) -> None:
     for _ in range(nrand):
         nruns = rng.choice([1, 1, 2, 3])
         r0 = rng.randint(1, 20)
-        runs = [(r0 + i, gen_stream(rng, 4, rng.choice([5, 15, 40, 80]))) for i in range(nruns)]
+        runs = [(r0 + i, gen_stream(rng, rng.choice([2, 4, 6]), rng.choice([5, 15, 40, 80]))) for i in range(nruns)]
         scen.append((idx, runs, True))
         idx += 1
     n = 16
